@@ -155,7 +155,9 @@ def value_scenario(ex, kind):
             e = ex.lazy.get(("eq", lhs.vid, seq.items[k].vid))
             same = e is not None and z3.is_true(mv(e))
             member = member or same
-            items.append({"Int": 5} if same else {"Int": 100 + k})
+            # an element that differs from the needle is given another kind: lists are dynamically
+            # typed, and "differs" must not depend on the elements sharing the needle's type
+            items.append({"Int": 5} if same else ({"Str": f"e{k}"} if k % 2 == 0 else {"Int": 100 + k}))
         return {"kind": "value", "request": {"instrs": [{"op": "Push", "val": {"Int": 5}}, {"op": "Push", "val": {"List": items}}, {"op": "In"}], "resolve": True},
                 "expected": {"ok": f"Bool({'true' if member else 'false'})"}}
     return build
